@@ -433,13 +433,19 @@ def run(tier, seed):
         "run (C19 owns the id translation); the ORACLE uses the generator's own record of what it hid",
     ]
     return rep.finish("proof", ob, trusted_base=core.TRUSTED_BASE_COMMON + [
-        "Model/OrderPruning.v and Model/Collator.v are hand-written; tied to cubemeasure.py pruning bases, "
-        "collator.py, dimension.py and the assembler order helpers by this correspondence run only",
+        "Model/OrderPruning.v and Model/Collator.v are hand-written; tied to collator.py, dimension.py and the "
+        "assembler order helpers by this correspondence run only; the emptiness criterion of the pruning masks "
+        "of the nine class pairs (through the factory dict) and of the stripe pruning bases is ALSO tied to the "
+        "text of matrix/cubemeasure.py and stripe/cubemeasure.py by the C09_gen_* obligations "
+        "(Proofs/GenAgreePruning.v)",
+        core.TRUSTED_BASE_TRANSLATOR,
         "the harness' own tabulation of the survey into unweighted eligibility counts (unweighted_tensor)"])
 
 
 def replay(path):
     d = json.load(open(path))
+    if d["violation"].get("kind") in core.OBLIGATION_KINDS:  # a broken obligation, no input to re-run
+        return core.replay_obligations(PID, d)
     case = d["violation"]["case"]
     rep = core.Report(PID, "quick", d.get("seed", 0))
     rep.findings = []
